@@ -214,7 +214,9 @@ class Equalizer(object):
             completed = True
 
         finally:
-            self._terminate_process.set()
+            # Without a worker there is nobody to signal (and the event of a killed worker must not be touched)
+            if self._compare_process is not None:
+                self._terminate_process.set()
             self._compare_tasks.close()
             self._compare_results.close()
             log_prefix = u'Completed all' if completed else u'Error during playback, executed'
@@ -294,8 +296,6 @@ class Equalizer(object):
             self._terminate_process.set()
             self._compare_process.join()
             self._compare_process = None
-            # Reset terminate state
-            self._terminate_process.clear()
 
         if self._compare_process is None:
             self._create_new_player_process()
@@ -313,6 +313,9 @@ class Equalizer(object):
         self._compare_results.close()
         self._compare_tasks = mp.Queue()
         self._compare_results = mp.Queue()
+        # ... and its own terminate event, a worker that is killed while polling the event dies holding the event's
+        # internal lock, which would block every later worker and the final termination signal
+        self._terminate_process = mp.Event()
         self._compare_process = mp.Process(
             target=self._playback_process_target, name='Playback runner')
         self._compare_process.start()
